@@ -14,10 +14,19 @@ Definition header_ok (h : str) : Prop :=
   | c :: _ => is_hash_or_space c = false /\ forallb not_lf h = true
   end.
 
+(* tags: no TAB/LF anywhere; only the LAST tag must be non-empty and must not
+   end in white space (the line is rstrip()ped before it is split, so a
+   trailing empty column is lost) -- empty columns between tags survive *)
+Definition tags_ok (tags : list str) : Prop :=
+  Forall no_tab_lf tags
+  /\ match tags with
+     | [] => True
+     | _ => last tags [] <> [] /\ no_trailing_space (last tags [])
+     end.
 Definition frag_ok_agp (f : frag) : Prop :=
   f_id f = -1 /\ no_tab_lf (f_name f) /\ f_start f <= f_end f
   /\ (f_strand f = 0 \/ f_strand f = 1 \/ f_strand f = -1)
-  /\ Forall (fun t => t <> [] /\ no_tab_lf t /\ no_trailing_space t) (f_tags f).
+  /\ tags_ok (f_tags f).
 Definition row_ok_agp (r : row) : Prop :=
   match r with
   | RF f => frag_ok_agp f
